@@ -133,10 +133,8 @@ theorem C20_reference_request_auth (pf : Profile) (user pass : Text) (hpf : pf.c
 
 /-- **The reference accepts only sentences of the grammar** (no-authentication profiles): whatever
 it accepts is a greeting offering the server's method followed by the encoding of exactly the
-request it is read as; `used` is the length of the two messages.
-(For the user/password profile only the direction `C20_reference_request_auth` is proved —
-`_partial`: the inverse statement for `decodeAuth` is not stated.) -/
-theorem C20_reference_complete_partial (pf : Profile) (hpf : pf.creds = none) (bs : Bytes) (cmd : Nat)
+request it is read as; `used` is the length of the two messages. -/
+theorem C20_reference_complete (pf : Profile) (hpf : pf.creds = none) (bs : Bytes) (cmd : Nat)
     (a : Addr) (port used : Nat) (pre : Bytes) (h : decodeNeg pf bs = .accept cmd a port used pre) :
     ∃ (methods : Bytes) (rsv : Byte) (rest : Bytes),
       bs = encGreeting methods ++ ((⟨cmd, rsv, a, port⟩ : Request).enc ++ rest) ∧
@@ -145,6 +143,23 @@ theorem C20_reference_complete_partial (pf : Profile) (hpf : pf.creds = none) (b
       used = (encGreeting methods).length + (⟨cmd, rsv, a, port⟩ : Request).enc.length ∧
       pre = [5, u8 pf.method] :=
   decodeNeg_accept pf hpf bs cmd a port used pre h
+
+/-- **Same for the user/password profile (RFC 1929)**: whatever the reference accepts is a greeting
+offering the method, the RFC 1929 message carrying exactly the configured user name and password
+(each at most 255 octets), and the encoding of exactly the request it is read as; the replies owed
+are the method selection and the success status `01 00`. -/
+theorem C20_reference_complete_auth (pf : Profile) (user pass : Text) (hpf : pf.creds = some (user, pass))
+    (bs : Bytes) (cmd : Nat) (a : Addr) (port used : Nat) (pre : Bytes)
+    (h : decodeNeg pf bs = .accept cmd a port used pre) :
+    ∃ (methods : Bytes) (rsv : Byte) (rest : Bytes),
+      bs = encGreeting methods ++ (encAuth user pass ++ ((⟨cmd, rsv, a, port⟩ : Request).enc ++ rest)) ∧
+      0 < methods.length ∧ methods.length ≤ 255 ∧ methods.contains (u8 pf.method) = true ∧
+      user.length ≤ 255 ∧ pass.length ≤ 255 ∧
+      (⟨cmd, rsv, a, port⟩ : Request).WF = true ∧ pf.cmds.contains cmd = true ∧
+      used = (encGreeting methods).length + (encAuth user pass).length +
+        (⟨cmd, rsv, a, port⟩ : Request).enc.length ∧
+      pre = [5, u8 pf.method, 1, 0] :=
+  decodeNeg_accept_auth pf user pass hpf bs cmd a port used pre h
 
 /-- **Round trip, listener** (`parseReq (encodeReq r) = r` in any chunking, consuming exactly the
 message): every method list containing "no authentication", every command CONNECT / UDP ASSOCIATE,
